@@ -375,14 +375,15 @@ impl ClusterHandler for GenCommHandler<'_> {
             let notify_change = |endpt_id, clust_id| ctx.notify_cluster_changed(endpt_id, clust_id);
 
             CommissioningErrorEnum::map(ctx.exchange().with_state(|state| {
-                let sess = ctx.exchange().id().session(&mut state.sessions);
-                let pase_sess_id =
-                    matches!(sess.get_session_mode(), SessionMode::Pase { .. }).then(|| sess.id());
+                // The session this command arrived on: if the rollback has to
+                // terminate it (a PASE session, or a session on the fabric being
+                // rolled back), it is kept - expired - until the response is out
+                let sess_id = ctx.exchange().id().session(&mut state.sessions).id();
 
                 removed_fabric = state.failsafe.expire(
                     &mut state.fabrics,
                     &mut state.sessions,
-                    pase_sess_id,
+                    Some(sess_id),
                     ctx.networks(),
                     ctx.kv(),
                     notify_mdns,
